@@ -439,7 +439,7 @@ func checkC13(c *core.Ctx) {
 	}
 	ndocs, nschemas := 50, 40
 	if c.Thorough() {
-		ndocs, nschemas = 1200, 800
+		ndocs, nschemas = 3000, 2500
 	}
 	rng := rand.New(rand.NewSource(c.Seed*198491317 + 13))
 	var lines [][]byte
